@@ -7,8 +7,14 @@
 package main
 
 import (
+	"bytes"
+	"context"
 	"fmt"
+	"os"
+	"os/exec"
+	"path/filepath"
 	"runtime"
+	"strconv"
 	"strings"
 	"time"
 
@@ -81,12 +87,107 @@ func bitStr(bs []bool) string {
 	return b.String()
 }
 
+var groups = []struct {
+	name string
+	f    func(*hlib.Ctx)
+}{{"steps", runSteps}, {"mc", runMC}, {"ms", runMS}, {"dc", runDC}, {"rast", runRast}}
+
+// run: a panic inside one of the library's own goroutines (worker pools, ConcurrentMap) cannot be
+// recovered and kills the process, so every group of cases runs in a child process of this same
+// binary; the child records the case it is executing in a progress file, and a crash is reported
+// as the implementation output "crash:<message>" of exactly that case.
 func run(c *hlib.Ctx) {
-	runSteps(c)
-	runMC(c)
-	runMS(c)
-	runDC(c)
-	runRast(c)
+	if g := os.Getenv("C12_GROUP"); g != "" {
+		for _, gr := range groups {
+			if gr.name == g {
+				gr.f(c)
+			}
+		}
+		return
+	}
+	for _, gr := range groups {
+		runChild(c, gr.name)
+	}
+}
+
+func runChild(c *hlib.Ctx, group string) {
+	dir, err := os.MkdirTemp("", "c12-"+group)
+	if err != nil {
+		panic(err)
+	}
+	defer os.RemoveAll(dir)
+	out, prog := filepath.Join(dir, "out.txt"), filepath.Join(dir, "progress.txt")
+	ctx, cancel := context.WithTimeout(context.Background(), 40*time.Minute)
+	defer cancel()
+	cmd := exec.CommandContext(ctx, os.Args[0], "-seed", strconv.FormatInt(c.Seed, 10), "-n", strconv.Itoa(c.N), "-out", out)
+	cmd.Env = append(os.Environ(), "C12_GROUP="+group, "C12_PROGRESS="+prog)
+	var stderr bytes.Buffer
+	cmd.Stderr = &stderr
+	cmd.Stdout = &stderr
+	runErr := cmd.Run()
+	data, _ := os.ReadFile(out)
+	text := string(data)
+	if i := strings.LastIndexByte(text, '\n'); i >= 0 {
+		text = text[:i]
+	} else {
+		text = ""
+	}
+	for _, line := range strings.Split(text, "\n") {
+		switch {
+		case line == "":
+		case strings.HasPrefix(line, "#stat "):
+			f := strings.Fields(line)
+			if len(f) == 3 {
+				if v, err := strconv.Atoi(f[2]); err == nil {
+					c.Stat(f[1], v)
+				}
+			}
+		case strings.HasPrefix(line, "#propfail "):
+			f := strings.SplitN(line, " ", 3)
+			if len(f) == 3 {
+				c.PropFail(f[1], f[2])
+			}
+		case strings.HasPrefix(line, "#"):
+		default:
+			p := strings.Split(line, "\t")
+			if len(p) == 2 {
+				c.Emit(p[0], p[1])
+			} else if len(p) == 3 {
+				c.EmitSite(p[0], p[1], p[2])
+			}
+		}
+	}
+	if runErr != nil {
+		msg := "exit:" + runErr.Error()
+		for _, l := range strings.Split(stderr.String(), "\n") {
+			if strings.HasPrefix(l, "panic:") || strings.HasPrefix(l, "fatal error:") {
+				msg = l
+				break
+			}
+		}
+		msg = strings.NewReplacer(" ", "_", "\t", "_").Replace(msg)
+		op := "c12 same group=" + group + " crashed-before-first-case"
+		if b, err := os.ReadFile(prog); err == nil && len(b) > 0 {
+			op = string(b)
+		}
+		c.EmitSite(op, "crash:"+msg, "corr:c12 crash/"+group)
+		c.Stat("c12.crashed_groups", 1)
+	}
+}
+
+var progressFile = os.Getenv("C12_PROGRESS")
+
+// emitCase records the case as "in progress", runs it under panic capture + watchdog and emits it.
+func emitCase(c *hlib.Ctx, op, site string, f func() string) {
+	if progressFile != "" {
+		os.WriteFile(progressFile, []byte(op), 0o644)
+	}
+	res := guarded(f)
+	if site == "" {
+		c.Emit(op, res)
+	} else {
+		c.EmitSite(op, res, site)
+	}
 }
 
 // ---- internal steps through hooks: Split, Pieces, Scan, dcCubeLayout windows
@@ -127,21 +228,21 @@ func runSteps(c *hlib.Ctx) {
 	for i := 0; i < 4*n; i++ {
 		min, max := randBlock3(c, 28)
 		op := fmt.Sprintf("c12 split %d %d %d %d %d %d", min[0], max[0], min[1], max[1], min[2], max[2])
-		c.Emit(op, guarded(func() string {
+		emitCase(c, op, "", func() string {
 			a0, a1, b0, b1, vol := model3d.VerifMcSplit(min, max)
 			if a1 != b1 && a0 == min && b1 == max {
 				c.Stat("c12.split.proper", 1)
 			}
 			return fmt.Sprintf("vol=%d %d %d %d %d %d %d | %d %d %d %d %d %d", vol,
 				a0[0], a1[0], a0[1], a1[1], a0[2], a1[2], b0[0], b1[0], b0[1], b1[1], b0[2], b1[2])
-		}))
+		})
 		min2, max2 := [2]int{min[0], min[1]}, [2]int{max[0], max[1]}
 		op = fmt.Sprintf("c12 split2 %d %d %d %d", min2[0], max2[0], min2[1], max2[1])
-		c.Emit(op, guarded(func() string {
+		emitCase(c, op, "", func() string {
 			a0, a1, b0, b1, area := model2d.VerifMsSplit(min2, max2)
 			return fmt.Sprintf("area=%d %d %d %d %d | %d %d %d %d", area,
 				a0[0], a1[0], a0[1], a1[1], b0[0], b1[0], b0[1], b1[1])
-		}))
+		})
 	}
 	mods := []int{0, 0, 2, 3, 5, 7, 11}
 	for i := 0; i < 2*n; i++ {
@@ -151,7 +252,7 @@ func runSteps(c *hlib.Ctx) {
 		seed, mod := c.Rng.Intn(1000), mods[c.Rng.Intn(len(mods))]
 		op := fmt.Sprintf("c12 pieces %d %d %d %d %d %d %d %d %d", mv, seed, mod,
 			min[0], max[0], min[1], max[1], min[2], max[2])
-		c.Emit(op, guarded(func() string {
+		emitCase(c, op, "", func() string {
 			g := oracle3(seed, mod)
 			rej, leaves := 0, 0
 			var vals []uint64
@@ -168,10 +269,10 @@ func runSteps(c *hlib.Ctx) {
 			c.Stat("c12.pieces.leaves", leaves)
 			c.Stat("c12.pieces.rejected", rej)
 			return fmt.Sprintf("n=%d r=%d h=%016x", leaves, rej, mix(vals...))
-		}))
+		})
 		min2, max2 := [2]int{min[0], min[1]}, [2]int{max[0] * 3, max[1] * 2}
 		op = fmt.Sprintf("c12 pieces2 %d %d %d %d %d %d %d", mv, seed, mod, min2[0], max2[0], min2[1], max2[1])
-		c.Emit(op, guarded(func() string {
+		emitCase(c, op, "", func() string {
 			g := oracle2(seed, mod)
 			rej, leaves := 0, 0
 			var vals []uint64
@@ -186,13 +287,13 @@ func runSteps(c *hlib.Ctx) {
 				vals = append(vals, uint64(a[0]), uint64(b[0]), uint64(a[1]), uint64(b[1]))
 			})
 			return fmt.Sprintf("n=%d r=%d h=%016x", leaves, rej, mix(vals...))
-		}))
+		})
 	}
 	// Scan: ring of caches
 	for _, procs := range []int{1, 2, 3, 8, 16} {
 		for _, nz := range scanSizes(c) {
 			procs, nz := procs, nz
-			c.Emit(fmt.Sprintf("c12 scan %d %d", procs, nz), guarded(func() string {
+			emitCase(c, fmt.Sprintf("c12 scan %d %d", procs, nz), "", func() string {
 				var tr [][3]int
 				withProcs(procs, func() { tr = model3d.VerifScanTrace(nz) })
 				var b strings.Builder
@@ -208,7 +309,7 @@ func runSteps(c *hlib.Ctx) {
 					fmt.Fprintf(&b, " %d:%d:%d", t[0], show(t[1], t[0]-1), show(t[2], t[0]))
 				}
 				return b.String()
-			}))
+			})
 			c.Stat("c12.scan", 1)
 		}
 	}
@@ -232,7 +333,7 @@ func runSteps(c *hlib.Ctx) {
 		default:
 			buf = nx * ny * (1 + c.Rng.Intn(nz+1))
 		}
-		c.Emit(fmt.Sprintf("c12 dcwin %d %d %d %d", nx, ny, nz, buf), guarded(func() string {
+		emitCase(c, fmt.Sprintf("c12 dcwin %d %d %d %d", nx, ny, nz, buf), "", func() string {
 			br, wins, problem := model3d.VerifDcWindows(nx, ny, nz, buf)
 			var b strings.Builder
 			fmt.Fprintf(&b, "B=%d", br)
@@ -249,7 +350,7 @@ func runSteps(c *hlib.Ctx) {
 				c.Stat("c12.dcwin.bufrows4", 1)
 			}
 			return b.String()
-		}))
+		})
 	}
 }
 
